@@ -83,6 +83,11 @@ def _classify(w, test, mod, ctx):
         return ("not", _classify(w, test.operand, mod, ctx))
     txt = norm(test)
     # boolean locals defined from a classified expression in the loop (e.g. current_sector_is_directory)
+    if isinstance(test, ast.Name) and test.id == w.links:
+        return ("atom", "NONEMPTY", txt)  # truthiness of the accumulated link list
+    if isinstance(test, ast.Call) and isinstance(test.func, ast.Name) and test.func.id == "len" and len(test.args) == 1 and isinstance(test.args[0], ast.Name) \
+            and test.args[0].id == w.links:
+        return ("atom", "NONEMPTY", txt)
     if isinstance(test, ast.Name):
         for st in ast.walk(w.loop):
             if isinstance(st, ast.Assign) and len(st.targets) == 1 and isinstance(st.targets[0], ast.Name) and st.targets[0].id == test.id \
@@ -143,7 +148,7 @@ def _show(t):
         return t[1]
     if t[0] == "not":
         return "!" + _show(t[1])
-    return "(" + (" | " if t[0] == "or" else " & ").join(_show(c) for c in t[1]) + ")"
+    return "(" + (" | " if t[0] == "or" else " & ").join(sorted(_show(c) for c in t[1])) + ")"  # operands sorted: the key is order-insensitive
 
 
 def _nnf(t, pol=True):
